@@ -45,7 +45,8 @@ Inductive omsg :=
 | OFwd (from : N) (m : msg)        (* message [m] forwarded to its addressed recipient, SENDER := unique name of [from] *)
 | OEav (from : N) (m : msg)        (* the same message copied to a connection because one of its eavesdrop match rules matches *)
 | OErr (e : err) (rs : N)          (* error from the bus, REPLY_SERIAL = rs *)
-| ODrv (rs : N) (code : N).        (* method return from the bus driver (RequestName / ReleaseName result) *)
+| ODrv (rs : N) (code : N)         (* method return from the bus driver (RequestName / ReleaseName result) *)
+| OCall (from : N) (serial : N).   (* copy of [from]'s method call to the bus driver (serial), made for an eavesdrop match rule *)
 
 Definition out := list (N * omsg).   (* (recipient, message), in the order they are queued *)
 
@@ -91,6 +92,7 @@ Inductive event :=
 | EAddMatch (c : N) (serial : N) (rl : rule)
 | EBlock (c : N)        (* c stops reading and other traffic drives its queue at the bus over max_outgoing_bytes *)
 | EDrain (c : N)        (* c reads everything again *)
+| EDriverCall (c : N) (serial : N)   (* some other method of org.freedesktop.DBus that changes nothing here (GetId, NameHasOwner) *)
 | EHangup (c : N).      (* c's socket is closed and the bus's transport has noticed (EOF), but the Disconnected message is still in
                            c's incoming queue: EDisconnect c follows later *)
 
@@ -297,6 +299,31 @@ Definition eav_out (cf : cfg) (st : state) (c r : N) (m : msg) : out :=
   map (fun e => (e, OEav c m))
       (filter (fun e => negb (restrictive cf) && negb ((0 <? m_nfds m) && negb (conn_fds st e)) && negb (is_full st e)) (eavesdroppers st c r m)).
 
+(* a method call to the bus driver is unicast as well: bus_dispatch hands it to bus_driver_handle_message and then runs
+   bus_dispatch_matches with addressed_recipient = NULL.  A rule with a destination key would have to name
+   org.freedesktop.DBus (not expressible in [rule]); a rule without one matches only if its owner wants to eavesdrop
+   (the message HAS a DESTINATION field, so it is not a broadcast). *)
+Definition drv_rule_matches (st : state) (rl : rule) (c : N) : bool :=
+  r_eaves rl &&
+  (match r_type rl with None => true | Some t => mtype_eqb t TCall end) &&
+  (match r_sender rl with None => true | Some d => match resolve st d with Some x => x =? c | None => false end end) &&
+  (match r_dest rl with None => true | Some _ => false end).
+
+Fixpoint drv_eav_list (st : state) (rules : list (N * rule)) (c : N) (seen : list N) : list N :=
+  match rules with
+  | [] => []
+  | (o, rl) :: rest =>
+      if drv_rule_matches st rl c && negb (existsb (N.eqb o) seen) then o :: drv_eav_list st rest c (o :: seen)
+      else drv_eav_list st rest c seen
+  end.
+
+(* nobody is the addressed recipient: nothing is stamped beforehand (the caller itself may hold a rule) *)
+Definition drv_eavesdroppers (st : state) (c : N) : list N := drv_eav_list st (st_rules st) c [].
+
+Definition drv_copies (cf : cfg) (st : state) (c s : N) : out :=
+  map (fun e => (e, OCall c s))
+      (filter (fun e => negb (restrictive cf) && negb (is_full st e)) (drv_eavesdroppers st c)).
+
 (* ---------------------------------------------------------------- steps *)
 Definition set_pend (st : state) (pl : list pend) : state :=
   mkState (st_conns st) (st_next st) (st_names st) pl (st_now st) (st_rules st) (st_full st) (st_held st) (st_zombie st).
@@ -392,6 +419,7 @@ Definition wf_event (st : state) (e : event) : bool :=
                 && forallb (fun e => forallb (fun x => negb (fst x =? c)) (snd e)) (st_held st)
   | EDrain c => connected st c && is_full st c
   | EHangup c => connected st c && negb (is_zombie st c)
+  | EDriverCall c s => connected st c && negb (s =? 0) && negb (is_full st c) && negb (is_zombie st c)
   end.
 
 Definition step (cf : cfg) (st : state) (e : event) : state * out :=
@@ -406,12 +434,15 @@ Definition step (cf : cfg) (st : state) (e : event) : state * out :=
       let q := match lookup (st_names st) n with Some q => q | None => [] end in
       let '(q', code) := acquire q c allow replace dnq in
       let '(st2, o) := release_name cf (set_names st (set_queue (st_names st) n q')) n in
-      (st2, o ++ [(c, ODrv s code)])           (* held messages are queued before the RequestName reply *)
+      (st2, o ++ [(c, ODrv s code)] ++ drv_copies cf st2 c s)    (* held messages are queued before the RequestName reply;
+                                                                    the copies of the call itself come last *)
   | EReleaseName c s n =>
       let '(nm, code) := release (st_names st) c n in
-      (set_names st nm, [(c, ODrv s code)])
+      (set_names st nm, [(c, ODrv s code)] ++ drv_copies cf (set_names st nm) c s)
   | EAddMatch c s rl =>          (* bus_driver_handle_add_match: the rule is stored, empty method return *)
-      (mkState (st_conns st) (st_next st) (st_names st) (st_pend st) (st_now st) (st_rules st ++ [(c, rl)]) (st_full st) (st_held st) (st_zombie st), [(c, ODrv s 0)])
+      (mkState (st_conns st) (st_next st) (st_names st) (st_pend st) (st_now st) (st_rules st ++ [(c, rl)]) (st_full st) (st_held st) (st_zombie st),
+       [(c, ODrv s 0)] ++ drv_copies cf (mkState (st_conns st) (st_next st) (st_names st) (st_pend st) (st_now st) (st_rules st ++ [(c, rl)]) (st_full st) (st_held st) (st_zombie st)) c s)
+  | EDriverCall c s => (st, [(c, ODrv s 0)] ++ drv_copies cf st c s)
   | EBlock c =>
       (mkState (st_conns st) (st_next st) (st_names st) (st_pend st) (st_now st) (st_rules st) (c :: st_full st) (st_held st) (st_zombie st), [])
   | EDrain c =>
